@@ -143,6 +143,16 @@ func Ops() []Op {
 		writeOp("srt", "#2"), writeOp("stl", "#2"),
 		writeOp("ssa", "#alt"), writeOp("stl", "#alt"), writeOp("vtt", "#alt"), writeOp("ttml", "#alt"),
 		readOp("read-ssa-v4plus", "ssa", []byte("[Script Info]\nScriptType: v4.00+\n\n[V4+ Styles]\nFormat: Name, Fontname, Bold, PrimaryColour\nStyle: Default,Arial,-1,&H00FFFFFF\n\n[Events]\nFormat: Layer, Start, End, Style, Name, MarginL, MarginR, MarginV, Effect, Text\nDialogue: 1,0:00:01.00,0:00:02.00,Default,,0,0,0,,{\\i1}x{\\i0} y\n")),
+		readOp("read-ttml-unmapped-lang", "ttml", []byte(`<tt xmlns="http://www.w3.org/ns/ttml" xml:lang="de"><body><div><p begin="1s" end="2s">x</p></div></body></tt>`)),
+		{"write-ttml-stl-unknown-lang", func(string) string {
+			l := richList("u")
+			l.Metadata.Language = "klingon"
+			l.Metadata.Framerate = 24
+			var b, b2 bytes.Buffer
+			e1, p1 := corpus.Write("ttml", l, &b)
+			e2, p2 := corpus.Write("stl", l, &b2)
+			return fmt.Sprint(e1, p1, e2, p2) + b.String() + b2.String()
+		}},
 		transformOp("add", func(s *astisub.Subtitles) { s.Add(-2 * time.Second) }),
 		transformOp("fragment", func(s *astisub.Subtitles) { s.Order(); s.Fragment(700 * time.Millisecond) }),
 		transformOp("unfragment", func(s *astisub.Subtitles) { s.Unfragment() }),
